@@ -159,7 +159,7 @@ Print Assumptions C11_intercept_gate.
    sockets stay plain, and byte for byte, in order: what the client sends is what is sent/queued to the
    origin, and what the origin sends is what the client gets after the 200 reply.  [benign]: the event list
    may contain, at any position, short writes and every "would block, try again" answer of a non-blocking
-   socket (BlockingIOError / SSLWantWriteError on send, SSLWantReadError on recv): the tunnel keeps running. *)
+   socket (BlockingIOError / SSLWantWriteError on a send, SSLWantReadError on a recv; both directions): the tunnel keeps running. *)
 Theorem C11_optout_is_tunnel :
   forall (is_ip_literal : bytes -> bool) (connect : bytes -> N -> option pyexn)
          (handshake : wrap_call -> hs_result) (openssl_run : openssl_cmd -> run_result)
@@ -248,7 +248,7 @@ Print Assumptions C11_cert_cache.
    chunk is queued for the client unmodified, in order, and leaves only inside the client TLS session; the
    only plaintext the client ever received is (a prefix of) the CONNECT reply - the client's byte stream
    is K200 followed by the origin's bytes.  As above the event list may contain short writes and would-block
-   answers (SSLWantWriteError on the upstream TLS send, SSLWantReadError on either recv) at any position:
+   answers (SSLWantWriteError on either TLS send, SSLWantReadError on either recv) at any position:
    the exchange stays established and not a byte is lost, duplicated or reordered. *)
 Theorem C11_intercepted_exchange_partial :
   forall (is_ip_literal : bytes -> bool) (connect : bytes -> N -> option pyexn)
@@ -325,7 +325,7 @@ Example C11_nonvacuous_would_block :
               UpstreamWrite (SendOk 4); UpstreamWrite (SendRaise SSLWantWriteError); UpstreamWrite (SendOk 2);
               UpstreamWrite (SendRaise BlockingIOError_); FlushUpstream;
               UpstreamRecvRaise SSLWantReadError; UpstreamData [true] (bs "response-1");
-              ClientWrite (SendOk 3); FlushClient] in
+              ClientWrite (SendRaise SSLWantWriteError); ClientWrite (SendOk 3); FlushClient] in
   let hf := sim_run sc ex_flags (bs "example.com") 443 [true] [] evs in
   Forall benign evs /\ established hf /\
   channel true (up_wire (ps hf)) = bs "request-1" /\ channel true (cl_wire (ps hf)) = bs "response-1" /\
